@@ -246,6 +246,79 @@ func c03(c *Ctx) {
 			return Callee(tr, "outStreamList.dequeue")(cc) && FieldLoad(fAct)(cc.Args[0])
 		}))
 	})
+	c.Ob("data-step", "R3", "processData: nothing is written without connection quota; a dequeued stream is either parked (only with no stream quota and a non-empty frame, and under no further condition) or written; after a successful write the stream's next state is decided; updateStreamAfterWrite re-lists the stream unless its queue is empty, trailers follow, or its stream quota is exhausted", 8, func() {
+		pd := c.fn(tr, "loopyWriter.processData")
+		fSQ := c.field(tr, "loopyWriter", "sendQuota")
+		fOiws := c.field(tr, "loopyWriter", "oiws")
+		fBOS := c.field(tr, "outStream", "bytesOutStanding")
+		strQuota := BinOpV(token.SUB, func(v ssa.Value) bool { return FieldLoad(fOiws)(stripConv(v)) }, FieldLoad(fBOS))
+		noQuota := CmpInt(strQuota, token.LEQ, 0)
+		deq := one(c, "activeStreams.dequeue", callsIn(pd, func(cc *ssa.CallCommon) bool {
+			return Callee(tr, "outStreamList.dequeue")(cc) && FieldLoad(fAct)(cc.Args[0])
+		}))
+		wd := one(c, "writeData", callsIn(pd, Callee(tr, "framer.writeData")))
+		var park *ssa.Store
+		for _, st := range storesToField(pd, fState) {
+			if waiting(st.Val) {
+				park = st
+			}
+		}
+		if !c.Expect(park != nil, nil, pd, "park-site", "the data step never parks a stream that is out of stream quota") {
+			return
+		}
+		c.MustFact(park, "parked-only-without-stream-quota", noQuota)
+		isEmptyFlag := func(v ssa.Value) bool {
+			p, ok := v.(*ssa.Phi)
+			if !ok {
+				return false
+			}
+			b, isB := p.Type().Underlying().(*types.Basic)
+			return isB && b.Kind() == types.Bool
+		}
+		c.MustFact(park, "parked-only-with-something-to-send", Truth(isEmptyFlag, false))
+		c.OnlyFacts(park, "parking-has-no-further-precondition", noQuota, Truth(isEmptyFlag, false),
+			CmpInt(FieldLoad(fSQ), token.NEQ, 0), NotNil(func(v ssa.Value) bool { return v == deq.Value() }))
+		c.Unreachable(wd, "no-write-without-connection-quota", CmpInt(FieldLoad(fSQ), token.EQL, 0))
+		c.Unreachable(wd, "no-write-without-stream-quota", noQuota, Truth(isEmptyFlag, false))
+		isPark := func(in ssa.Instruction) bool { return in == ssa.Instruction(park) }
+		isWD := func(in ssa.Instruction) bool { return in == ssa.Instruction(wd) }
+		c.MustPass("dequeued-stream-is-parked-or-written", pathQuery{Fn: pd, Starts: []ssa.Instruction{deq}, Barrier: orInstr(isPark, isWD), Target: func(in ssa.Instruction) bool {
+			r, ok := in.(*ssa.Return)
+			return ok && ConstNil(r.Results[1]) // error returns (reader failure) aside
+		}, EdgeBlock: func(from, to *ssa.BasicBlock) bool {
+			_, ok := hasFact(edgeFacts(from, to), IsNil(func(v ssa.Value) bool { return v == deq.Value() }))
+			return ok
+		}}, deq)
+		upd := one(c, "updateStreamAfterWrite call", callsIn(pd, Callee(tr, "loopyWriter.updateStreamAfterWrite")))
+		c.MustPass("written-stream-gets-its-next-state", pathQuery{Fn: pd, Starts: []ssa.Instruction{wd}, Barrier: func(in ssa.Instruction) bool { return in == ssa.Instruction(upd) }, Target: isReturn,
+			EdgeBlock: func(from, to *ssa.BasicBlock) bool {
+				_, ok := hasFact(edgeFacts(from, to), NotNil(func(v ssa.Value) bool { return v == wd.Value() }))
+				return ok
+			}}, wd)
+		c.ArgIs(upd, 1, "next-state-of-the-written-stream", func(v ssa.Value) bool { return v == deq.Value() })
+		ua := c.fn(tr, "loopyWriter.updateStreamAfterWrite")
+		decided := func(in ssa.Instruction) bool {
+			if st, ok := in.(*ssa.Store); ok && FieldAddrOf(fState)(st.Addr) {
+				return true
+			}
+			return isCallTo(listEnq)(in) || isCallTo(Callee(tr, "loopyWriter.writeHeader"))(in)
+		}
+		c.MustPass("after-write:state-always-decided", pathQuery{Fn: ua, AtEntry: true, Barrier: decided, Target: isReturn}, nil)
+		for _, st := range storesToField(ua, fState) {
+			if waiting(st.Val) {
+				c.MustFact(st, "after-write:parked-only-without-stream-quota", noQuota)
+				c.OnlyFacts(st, "after-write:parking-has-no-further-precondition", noQuota,
+					Truth(CallRes(Callee(tr, "itemList.isEmpty"), 0), false), Truth(TypeAssertOk(func(types.Type) bool { return true }), false))
+			}
+			if empty(st.Val) {
+				c.MustFact(st, "after-write:empty-only-with-empty-queue", Truth(CallRes(Callee(tr, "itemList.isEmpty"), 0), true))
+			}
+		}
+		for _, e := range callsIn(ua, listEnq) {
+			c.Unreachable(e, "after-write:not-relisted-without-stream-quota", noQuota)
+			c.Unreachable(e, "after-write:not-relisted-with-empty-queue", Truth(CallRes(Callee(tr, "itemList.isEmpty"), 0), true))
+		}
+	})
 	c.Ob("wait-consumers", "R6", "a stream waiting for stream quota is re-activated by a stream WINDOW_UPDATE that leaves positive quota, and by a SETTINGS increase of the initial window (old < new)", 2, func() {
 		wu := c.fn(tr, "loopyWriter.incomingWindowUpdateHandler")
 		as := c.fn(tr, "loopyWriter.applySettings")
